@@ -14,6 +14,11 @@ GEN_SECTIONS = ['GenDedup', 'GenBlock', 'FP_store_events', 'FP_store_ext', 'FP_s
                 'FP_event_lib', 'FP_dedup', 'FP_read_wrapper']
 COQ_TARGETS = ['Props/C06.vo']
 LEVEL = 'proof'
+MANIFEST = {
+    'text': 'Theorems (Coq, every interleaving of add_block, set_block, get_block, register_*, remove_duplicates (in place/copy), write and read, for arbitrary rounding functions): the cache-on and cache-off objects produce identical outputs and stores (bisimulation by induction over the operation list); every cached block equals decode of the current store; get_block(i) = decode(store, i); decoding is monotone under library growth; by-value and by-id storage agree; equal events share one entry, distinct events never do. Random histories of 5-40 operations run on twin implementations (cache on/off) and on the extracted model, comparing every output and the full library state after each operation, plus a reference dictionary of last-stored content.',
+    'note': 'Trusted: Coq kernel; source fingerprints of block.py/event_lib.py/sequence.py regions the model transcribes; extraction + driver; numeric extraction inside register_*_event is taken from the implementation; caller never mutates returned blocks. Known finding C06/rf-use-shared-entry (RF events differing only in `use` share one entry) is recorded, not repaired.',
+    'technique': 'Rocq/Coq proof (simulation between cached and uncached state machines, invariant over all operation histories) + twin-implementation differential histories',
+}
 BUDGET = {'quick': 200, 'thorough': 2400}
 MISMATCH_BUDGET = 0.0
 RULE = ('random histories of 5-40 operations (add_block, set_block on first/middle/last/gap index, get_block, '
